@@ -1,7 +1,12 @@
 """C14: Percolate keeps a floor(T*M)-subset of the edges.
 Tie B: run Percolate.build through a real dynamics with a scripted shuffle; compare what was
 handed to occupy/unoccupy and the working network with Model/Percolate.v.
-D: the property restated directly on the implementation's observables."""
+D: the property restated directly on the implementation's observables.
+A quarter of the cases run the SAME dynamics object a second time (another scripted permutation, possibly another T):
+tie and D are applied to every run against the ORIGINAL edge list (each run starts from the prototype).
+"Law" cases (exhaustive part, judged by D only): the build is driven by an enumerating oracle
+(harness/enumoracle.py) over the whole tree of outcomes of the random doors, and the exact probability of every
+retained edge subset must be 1/C(M, floor(T*M)) - uniformity without statistics."""
 import itertools
 import math
 from fractions import Fraction
@@ -11,6 +16,7 @@ import networkx
 from vlib import coqlit as L
 from vlib.core import Harness
 from vlib.oracle import Oracle, install
+from harness.enumoracle import Refused, NotReplayable, explore
 
 
 def norm(e):
@@ -53,13 +59,37 @@ class H(Harness):
     THOROUGH_N = 6000
     ALLOWED_AXIOMS = set()
     RULE = ('networks of 0-7 nodes (complete/path/star/empty/random/with self-loops, both edge orientations), '
-            'T from {0, 1, j/M, j/M +- 2^-30, random dyadic}, a scripted shuffle permutation, alone or followed by a probe '
-            'process in a ProcessSequence; cases on which float int(M*T) differs from exact floor(M*T) are dropped and counted; '
-            'a case is non-trivial when M >= 2 and 0 < occ < M; distinct by (edges, T, permutation, mode)')
-    TRUSTED = ['Coq 8.16.1 kernel incl. vm_compute', 'harness/c14.py and vlib (scripted shuffle, observation of occupy/unoccupy arguments)',
+            'T from {0, 1, j/M, j/M +- 2^-30, random dyadic}, a scripted shuffle permutation, alone or in a ProcessSequence '
+            'followed by a probe process that reads the network in build(), setUp() and results() (Percolate first, or after '
+            'another probe, or inside a nested sequence, or the probe inside a nested sequence), under StochasticDynamics or '
+            'SynchronousDynamics; a quarter of the cases run the same dynamics object twice (second scripted permutation, same '
+            'or another T), every run judged against the original edge list; cases on which float int(M*T) differs from exact '
+            'floor(M*T) are dropped and counted; law cases (M = 3, 4 edges, every k; D only): the exact distribution of the '
+            'retained subset over all outcomes of the random doors (enumerating oracle) must be uniform; '
+            'a case is non-trivial when M >= 2 and 0 < occ < M; distinct by (edges, T, permutation, mode, layout, second run)')
+    TRUSTED = ['Coq 8.16.1 kernel incl. vm_compute', 'harness/c14.py, harness/enumoracle.py and vlib (scripted shuffle, enumeration of the outcomes of the random doors, observation of occupy/unoccupy arguments)',
                'networkx Graph.copy / remove_edges_from / edges modelled as an undirected edge list']
-    ASSUMPTIONS = ['numpy.random.shuffle produces a uniformly distributed permutation (uniformity of the retained subset follows from C14_equivariant only under this assumption)',
+    ASSUMPTIONS = ['numpy.random.shuffle produces a uniformly distributed permutation, rng.integers / rng.choice uniformly distributed values (the law cases weigh the outcomes of each door equally; C14_uniform counts shuffles)',
                    'int(M*T) in binary64 equals floor(M*T) on the generated inputs (checked per case; differing cases are excluded and counted)']
+
+    LAYOUTS = ['first', 'first', 'first', 'mid', 'nest_perc', 'nest_probe', 'nest_both']
+
+    @staticmethod
+    def _T(rnd, M):
+        tk = rnd.randrange(6)
+        if tk == 0:
+            return 0.0
+        if tk == 1:
+            return 1.0
+        if tk == 2 and M > 0:
+            return rnd.randrange(0, M + 1) / M
+        if tk == 3 and M > 0:
+            return min(1.0, max(0.0, rnd.randrange(0, M + 1) / M + rnd.choice([-1, 1]) * 2.0 ** -30))
+        return rnd.randrange(0, 1 << 12) / float(1 << 12)
+
+    @staticmethod
+    def _floats_agree(M, T):
+        return int(M * T) == math.floor(Fraction(M) * Fraction(T))
 
     def gen_cases(self, tier, rnd, n):
         out = []
@@ -71,18 +101,8 @@ class H(Harness):
             es = list(g.edges())
             M = len(es)
             mode = rnd.choice(['alone', 'seq'])
-            tk = rnd.randrange(6)
-            if tk == 0:
-                T = 0.0
-            elif tk == 1:
-                T = 1.0
-            elif tk == 2 and M > 0:
-                T = rnd.randrange(0, M + 1) / M
-            elif tk == 3 and M > 0:
-                T = min(1.0, max(0.0, rnd.randrange(0, M + 1) / M + rnd.choice([-1, 1]) * 2.0 ** -30))
-            else:
-                T = rnd.randrange(0, 1 << 12) / float(1 << 12)
-            if int(M * T) != math.floor(Fraction(M) * Fraction(T)):
+            T = self._T(rnd, M)
+            if not self._floats_agree(M, T):
                 self.dropped += 1
                 continue
             perm = list(range(M))
@@ -92,7 +112,21 @@ class H(Harness):
                 pool = ['a', 'b', 'n3', 7, 'x', 11, 'k', 2][:nn]
                 rnd.shuffle(pool)
                 labels = pool
-            out.append({'nodes': list(g.nodes()), 'edges': [list(e) for e in es], 'T': T, 'perm': perm, 'mode': mode, 'labels': labels})
+            case = {'nodes': list(g.nodes()), 'edges': [list(e) for e in es], 'T': T, 'perm': perm, 'mode': mode, 'labels': labels}
+            if mode == 'seq':
+                case['layout'] = rnd.choice(self.LAYOUTS)
+            if rnd.random() < 0.3:
+                case['dyn'] = 'synchronous'
+            if rnd.random() < 0.25:
+                # the same dynamics object is run a second time: it must start from the prototype again
+                T2 = T if rnd.random() < 0.4 else self._T(rnd, M)
+                if not self._floats_agree(M, T2):
+                    self.dropped += 1
+                    continue
+                perm2 = list(range(M))
+                rnd.shuffle(perm2)
+                case['again'] = {'T': T2, 'perm': perm2}
+            out.append(case)
         return out
 
     def exhaustive_cases(self, tier):
@@ -107,14 +141,63 @@ class H(Harness):
             for perm in itertools.permutations(range(M)):
                 for j in range(M + 1):
                     T = min(1.0, (j + 0.5) / M)
-                    if int(M * T) != math.floor(Fraction(M) * Fraction(T)):
+                    if not self._floats_agree(M, T):
                         continue
                     out.append({'nodes': nodes, 'edges': [list(e) for e in es], 'T': T, 'perm': list(perm), 'mode': 'alone'})
+        # every k = 0..M twice on one dynamics object (second run with another permutation and the complementary k)
+        for es in shapes[:2]:
+            M = len(es)
+            nodes = sorted({x for e in es for x in e})
+            for j in range(M + 1):
+                T = min(1.0, (j + 0.5) / M); T2 = min(1.0, (M - j + 0.5) / M)
+                if self._floats_agree(M, T) and self._floats_agree(M, T2):
+                    out.append({'nodes': nodes, 'edges': [list(e) for e in es], 'T': T, 'perm': list(range(M))[::-1], 'mode': 'seq',
+                                'again': {'T': T2, 'perm': [(i + 1) % M for i in range(M)]}})
+        # the law: exact distribution of the retained subset, every k, M = 3 and 4 (5 in the thorough tier)
+        for es in shapes:
+            M = len(es)
+            nodes = sorted({x for e in es for x in e})
+            for j in range(M + 1):
+                T = min(1.0, (j + 0.5) / M)
+                if self._floats_agree(M, T):
+                    out.append({'law': True, 'nodes': nodes, 'edges': [list(e) for e in es], 'T': T, 'perm': [], 'mode': 'alone'})
         return out
 
+    # ---------------------------------------------------------------- running the implementation
+    MAX_PATHS = 5000
+
+    def _execute_law(self, case):
+        """the exact distribution of the retained edge set over all outcomes of the random doors"""
+        from epydemic import Percolate, StochasticDynamics
+        g = networkx.Graph()
+        g.add_nodes_from(case['nodes'])
+        g.add_edges_from([tuple(e) for e in case['edges']])
+
+        def run(orc):
+            dyn = StochasticDynamics(Percolate(), g)
+            end = {}
+            dyn.simulationEnded = lambda res: end.update(edges=tuple(sorted(norm(e) for e in dyn.network().edges())),
+                                                         count=dyn.network().number_of_edges())
+            dyn.set({Percolate.T: case['T']}).run(fatal=True)
+            return (end['edges'], end['count'])
+
+        law = {'skipped': None, 'exception': None, 'paths': 0, 'dist': None}
+        try:
+            dist, paths = explore(run, self.MAX_PATHS)
+            law['paths'] = paths
+            law['dist'] = sorted(([list(e) for e in k[0]], k[1], p) for k, p in dist.items())
+        except (Refused, NotReplayable) as e:
+            law['skipped'] = type(e).__name__ + ': ' + str(e)
+        except Exception as e:      # observable behaviour
+            law['exception'] = type(e).__name__ + ': ' + str(e)
+        return {'law': law, 'stats': {'law_cases': 1, 'law_cases_skipped_source_not_enumerable': int(law['skipped'] is not None),
+                                      'law_paths_explored': law['paths']}}
+
     def execute(self, case):
+        if case.get('law'):
+            return self._execute_law(case)
         import epydemic
-        from epydemic import Percolate, Process, ProcessSequence, StochasticDynamics
+        from epydemic import Percolate, Process, ProcessSequence, StochasticDynamics, SynchronousDynamics
         g = networkx.Graph()
         lab = case.get('labels')
         name = (lambda x: lab[x]) if lab else (lambda x: x)      # node labels of mixed types (ints and strings)
@@ -135,33 +218,124 @@ class H(Harness):
                 super().unoccupy(unoccupied)
 
         class Probe(Process):
+            """reads the working network at every stage at which a process can look at it"""
+            def __init__(self, tag):
+                super().__init__()
+                self.tag = tag
+
+            def _see(self, stage):
+                rec[self.tag + stage] = [unname(e) for e in self.network().edges()]
+
             def build(self, params):
                 super().build(params)
-                rec['next_edges'] = [unname(e) for e in self.network().edges()]
+                self._see('_build')
+
+            def setUp(self, params):
+                super().setUp(params)
+                self._see('_setup')
+
+            def results(self):
+                self._see('_results')
+                return super().results()
 
         perc = RecPercolate()
-        proc = perc if case['mode'] == 'alone' else ProcessSequence([perc, Probe()])
-        orc = install(Oracle(seed=0, script={'shuffle': [case['perm']]}))
-        dyn = StochasticDynamics(proc, g)
+        layout = case.get('layout') or 'first'
+        if case['mode'] == 'alone':
+            proc = perc
+        elif layout == 'mid':             # Percolate is not the first component
+            proc = ProcessSequence([Probe('before'), perc, Probe('next')])
+        elif layout == 'nest_perc':
+            proc = ProcessSequence([ProcessSequence([perc]), Probe('next')])
+        elif layout == 'nest_probe':
+            proc = ProcessSequence([perc, ProcessSequence([Probe('next')])])
+        elif layout == 'nest_both':
+            proc = ProcessSequence([ProcessSequence([Probe('before'), perc]), ProcessSequence([Probe('next')])])
+        else:
+            proc = ProcessSequence([perc, Probe('next')])
+        sync = case.get('dyn') == 'synchronous'
+        if sync:
+            proc.setMaximumTime(2)        # no events: the synchronous loop runs to the maximum time
+        again = case.get('again')
+        plan = [(case['T'], case['perm'])] + ([(again['T'], again['perm'])] if again else [])
+        orc = install(Oracle(seed=0, script={'shuffle': [p for _, p in plan]}))
+        dyn = (SynchronousDynamics if sync else StochasticDynamics)(proc, g)
         end = {}
         dyn.simulationEnded = lambda res: end.update(nodes=[back.get(x, -1) for x in dyn.network().nodes()], edges=[unname(e) for e in dyn.network().edges()])
-        exc = None
-        try:
-            dyn.set({Percolate.T: case['T']}).run(fatal=True)
-        except Exception as e:  # observable behaviour
-            exc = type(e).__name__ + ': ' + str(e)
-        obs = {'exception': exc, 'g_edges': [unname(e) for e in proto_edges], 'occupied': rec.get('occupied'), 'unoccupied': rec.get('unoccupied'),
-               'nodes': end.get('nodes'), 'edges': end.get('edges'),
-               'next_edges': rec.get('next_edges') if case['mode'] == 'seq' else end.get('edges'),
-               'proto_same': list(g.nodes()) == proto_nodes and list(g.edges()) == proto_edges,
-               'shuffles': [list(e[1]) for e in orc.values('shuffle')]}
+        runs = []
+        for T, perm in plan:
+            rec.clear(); end.clear()
+            before = len(orc.values('shuffle'))
+            exc = None
+            try:
+                dyn.set({Percolate.T: T}).run(fatal=True)
+            except Exception as e:  # observable behaviour
+                exc = type(e).__name__ + ': ' + str(e)
+            seq = case['mode'] == 'seq'
+            runs.append({'exception': exc, 'T': T, 'perm': list(perm), 'occupied': rec.get('occupied'), 'unoccupied': rec.get('unoccupied'),
+                         'nodes': end.get('nodes'), 'edges': end.get('edges'),
+                         'next_edges': rec.get('next_build') if seq else end.get('edges'),
+                         'next_setup': rec.get('next_setup') if seq else None,
+                         'next_results': rec.get('next_results') if seq else None,
+                         'before_build': rec.get('before_build'),
+                         'proto_same': list(g.nodes()) == proto_nodes and list(g.edges()) == proto_edges,
+                         'shuffles': [list(e[1]) for e in orc.values('shuffle')[before:]]})
+            if exc is not None:
+                break
+        obs = dict(runs[0])       # the first run at top level (format of older replays)
+        obs['g_edges'] = [unname(e) for e in proto_edges]
+        obs['runs'] = runs
+        obs['stats'] = {'cases_alone': int(case['mode'] == 'alone'), 'cases_in_sequence_' + layout: int(case['mode'] == 'seq'),
+                        'cases_synchronous': int(sync), 'cases_run_twice': int(len(runs) == 2), 'runs': len(runs)}
         return obs
 
-    def direct(self, case, obs):
-        v = []
+    # ---------------------------------------------------------------- D
+    def _direct_law(self, case, obs):
+        law = obs['law']
         es = [tuple(e) for e in case['edges']]
         M = len(es)
         T = case['T']
+        k = math.floor(Fraction(M) * Fraction(T))
+        if law['exception']:
+            return [{'signature': 'build-raised', 'detail': law['exception']}]
+        if law['skipped']:
+            return []           # a random source that cannot be enumerated exactly: no judgement
+        E0 = sorted({norm(e) for e in es})
+        want = Fraction(1, math.comb(M, k))
+        seen = {}
+        for edges, count, p in law['dist']:
+            key = tuple(tuple(e) for e in edges)
+            # a result that is not a k-subset of the edges (judged by the other cases as well) has no share in the law
+            ok = count == k and len(key) == k and set(key) <= set(E0)
+            kk = key if ok else ('not a %d-subset' % k, key, count)
+            seen[kk] = seen.get(kk, 0) + p
+        expected = {s: want for s in itertools.combinations(E0, k)}
+        if seen != expected:
+            return [{'signature': 'subset-not-uniform',
+                     'detail': {'edges': E0, 'T': T, 'M': M, 'k': k, 'paths_explored': law['paths'],
+                                'probability_of_every_subset_must_be': str(want),
+                                'probabilities': sorted((str(s), str(p)) for s, p in seen.items()),
+                                'subsets_never_retained': sorted(str(s) for s in expected if s not in seen)}}]
+        return []
+
+    def direct(self, case, obs):
+        if case.get('law'):
+            return self._direct_law(case, obs)
+        out = []
+        runs = obs.get('runs') or [obs]
+        for r, ro in enumerate(runs):
+            for v in self._direct_run(case, ro, ro.get('T', case['T'])):
+                if len(runs) > 1 or r > 0:
+                    v['detail'] = {'run': r + 1, 'of': len(runs), 'T': ro.get('T', case['T']), 'what': v.get('detail')}
+                out.append(v)
+        if case.get('again') and len(runs) < 2 and not runs[0]['exception']:
+            out.append({'signature': 'second-run-missing', 'detail': None})
+        return out
+
+    def _direct_run(self, case, obs, T):
+        """the property on one run, against the ORIGINAL edge list (every run starts from the prototype)"""
+        v = []
+        es = [tuple(e) for e in case['edges']]
+        M = len(es)
         k = math.floor(Fraction(M) * Fraction(T))
         if obs['exception'] or obs['edges'] is None or obs['occupied'] is None or obs['unoccupied'] is None:
             return [{'signature': 'build-raised', 'detail': obs['exception']}]
@@ -178,33 +352,51 @@ class H(Harness):
             v.append({'signature': 'not-a-partition', 'detail': {'occupied': occ, 'unoccupied': un, 'M': M}})
         if set(E1) != set(occ):
             v.append({'signature': 'kept-not-occupied', 'detail': {'kept': E1, 'occupied': occ}})
-        if case['mode'] == 'seq' and sorted(norm(e) for e in (obs['next_edges'] or [])) != sorted(E1):
-            v.append({'signature': 'next-process-sees-other-network', 'detail': obs['next_edges']})
+        if case['mode'] == 'seq':
+            # a later process sees the percolated network whenever it looks: while it is built, set up, and when it reports
+            for stage, key in (('build', 'next_edges'), ('setUp', 'next_setup'), ('results', 'next_results')):
+                if key in obs and sorted(norm(e) for e in (obs[key] or [])) != sorted(E1):
+                    v.append({'signature': 'next-process-sees-other-network', 'detail': {'in': stage, 'edges': obs[key]}})
+                    break
         if not obs['proto_same']:
             v.append({'signature': 'prototype-modified', 'detail': None})
         return v
 
+    # ---------------------------------------------------------------- tie B
     def to_coq(self, case, obs):
+        if case.get('law'):
+            return None         # judged by D only
+        runs = obs.get('runs') or [obs]
+        return L.lst([self._run_to_coq(case, obs['g_edges'], ro) for ro in runs])
+
+    def _run_to_coq(self, case, g_edges, obs):
+        T = obs.get('T', case['T']); perm = obs.get('perm', case['perm'])
         if obs.get('exception') or obs.get('edges') is None or obs.get('occupied') is None or obs.get('unoccupied') is None:
             # the model never raises: give it an observation that cannot match
             occ = un = edges = nxt = [(-1, -1)]
             nodes = []
         else:
             occ, un, edges, nxt, nodes = obs['occupied'], obs['unoccupied'], obs['edges'], obs['next_edges'] or [], obs['nodes']
-        if len(obs.get('shuffles', [])) != 1 or obs['shuffles'][0] != case['perm']:
+        if len(obs.get('shuffles', [])) != 1 or obs['shuffles'][0] != perm:
             nodes = [-1]    # the implementation did not use the scripted shuffle exactly once
         f = lambda es: L.lst(es, L.zpair)
+        # every run is modelled from the ORIGINAL edge list
         return ('{| c_nodes := %s; c_edges := %s; c_perm := %s; c_T := %s; o_occupied := %s; o_unoccupied := %s; '
                 'o_nodes := %s; o_edges := %s; o_next_edges := %s |}') % (
-            L.lst(case['nodes'], L.z), f(obs['g_edges']), L.lst(case['perm'], L.nat), L.q(case['T']),
+            L.lst(case['nodes'], L.z), f(g_edges), L.lst(perm, L.nat), L.q(T),
             f(occ), f(un), L.lst(nodes, L.z), f(edges), f(nxt))
 
     def nontrivial(self, case, obs):
         M = len(case['edges'])
         k = int(M * case['T'])
         if M >= 2 and 0 < k < M:
-            return (tuple(map(tuple, case['edges'])), case['T'], tuple(case['perm']), case['mode'])
+            ag = case.get('again')
+            return (tuple(map(tuple, case['edges'])), case['T'], tuple(case['perm']), case['mode'], case.get('layout'), case.get('dyn'),
+                    bool(case.get('law')), (ag['T'], tuple(ag['perm'])) if ag else None)
         return None
 
     def sample_view(self, case, obs):
-        return {'case': case, 'occupied': obs.get('occupied'), 'unoccupied': obs.get('unoccupied'), 'edges_after': obs.get('edges')}
+        if case.get('law'):
+            return {'case': case, 'law': obs.get('law')}
+        return {'case': case, 'occupied': obs.get('occupied'), 'unoccupied': obs.get('unoccupied'), 'edges_after': obs.get('edges'),
+                'second_run': (obs.get('runs') or [None, None])[1:2]}
